@@ -1197,6 +1197,11 @@ func runC02(c *Ctx) {
 	r.Rule = "sources in which a rewrite can fire (constant arithmetic at depth, literal arrays, membership in literal arrays / literal ranges with left operands of every admitted static type, constant ranges, ConstExpr calls) inside typed contexts x {struct, map} environments x ConstExpr sets: (i) Lean model of optimizer.Optimize = real optimizer on the typed tree (kinds, locations, error location); (ii) on the real code: Optimize(true) vs Optimize(false), ConstExpr on vs off, same environment values, ObsEq; non-trivial = the real optimizer changed the tree or rejected it"
 	flags := probeOptFlags(c)
 	r.Note("model flags probed from /repo: %s", flags.String())
+	if flags != optRepaired {
+		// the theorems of Props/C02 (and C01's typed pipeline) are stated for the literal `Opt.Flags.asIs` (every repair
+		// in place): when the code behaves like another variant they are theorems about a model the code does not implement
+		r.Mismatch("flags", "behaviour probes of the optimizer", "Opt.Flags.asIs = "+optRepaired.String(), flags.String())
+	}
 	for _, fk := range flagKeys {
 		if fk.get(flags) {
 			r.Count("flag:"+fk.name, 1)
